@@ -203,7 +203,7 @@ def check_roundtrip(ctx, obj, R, sts, mags, k, site, coords, clause="C15.roundtr
         return False
     allok = True
     for j in range(R.shape[1]):
-        kc = O.keyclass(sts[j]) + tag
+        kc = O.keyclass(sts[j], mags[j], k) + tag
         mok, vok, worst, first = O.compare_matrix(un[:, j:j + 1], R[:, j:j + 1], [mags[j]], k)
         w = None
         if not (mok and vok):
@@ -253,7 +253,7 @@ def check_stored(ctx, obj, R, sts, mags, k, site, coords, derived=False):
         s = math.sqrt(math.fsum((x - m) ** 2 for x in fin) / len(fin))
         ctx.maxnote("stored |mean| or |sd-1| / tol", max(abs(m), abs(s - 1.0)) / tolc)
         ctx.check("C15.roundtrip.stored", abs(m) <= tolc and abs(s - 1.0) <= tolc and sc[j] > 0, site,
-                  "stored column has mean 0 and sd 1", O.keyclass(st),
+                  "stored column has mean 0 and sd 1", O.keyclass(st, mags[j], k),
                   witness={"raw_column": R[:, j], "stored_column": M[:, j], "stored_mean": m, "stored_sd": s, "tol": tolc,
                            "location": loc[j], "scale": sc[j]}, coords=coords)
 
@@ -268,7 +268,7 @@ def check_stats(ctx, obj, R, sts, mags, k, coords, tag=""):
     raw column; for an object whose taxa set was changed in place (append/incorp/remove) it is that state, whatever the
     column (one stale-parameter mechanism must not produce one key per column class)."""
     cls = type(obj); n, t = R.shape
-    kcls = (lambda st: INPLACE) if tag else O.keyclass
+    kcls = (lambda st, j: INPLACE) if tag else (lambda st, j: O.keyclass(st, mags[j], k))
     stored = numpy.array(obj.mat, dtype=float, copy=True)
     for name in SUMM:
         site = site_of(cls, name)
@@ -286,7 +286,7 @@ def check_stats(ctx, obj, R, sts, mags, k, coords, tag=""):
             st = sts[j]
             if st is None:
                 continue
-            kc = kcls(st)
+            kc = kcls(st, j)
             if ok:
                 exp = st[name]; tol = O.tol_stat(name, st, mags[j], k); v = float(val[j])
                 good = (abs(v - exp) <= tol) or (st["nan"] and v != v)
@@ -316,7 +316,7 @@ def check_stats(ctx, obj, R, sts, mags, k, coords, tag=""):
             st = sts[j]
             if st is None:
                 continue
-            kc = kcls(st)
+            kc = kcls(st, j)
             try:
                 i = int(val[j]); inr = (0 <= i < n) and float(val[j]) == i
             except Exception:
@@ -432,6 +432,15 @@ def _case_ops(ctx, c):
     hist = []
     tag = ""
     ids0 = list(ids)
+
+    def sound(o, idl):
+        """A freshly built matrix (initial object, donor) must itself round-trip; if not, that is from_numpy's finding
+        (reported once there) and the history stops instead of blaming every operation that consumes the object."""
+        R0 = U[idl]; s0, _ = col_stats(R0)
+        return check_roundtrip(ctx, o, R0, s0, mags, 0, site0, coords)
+
+    if not sound(b, ids):
+        return
     if c % 101 == 0:
         ctx.sample({"family": "ops", "class": cls.__name__, "column_classes": ccs, "initial_taxa": ids, "nops": nops,
                     "raw_initial": U[ids][:12].tolist()})
@@ -471,6 +480,8 @@ def _case_ops(ctx, c):
             dl = donor()
             dids = list(ids) if dl is None else dl
             dobj = b if dl is None else mk(dids)
+            if dl is not None and not sound(dobj, dids):
+                return
             raw_form = op in ("insert_taxa", "adjoin_taxa") and g.random() < 0.35
             vform = "values given as raw ndarray" if raw_form else "values given as matrix"
             kw = {}
@@ -500,6 +511,8 @@ def _case_ops(ctx, c):
             for _ in range(int(g.integers(0, 3))):
                 dl = donor()
                 parts.append((list(ids), b) if dl is None else (dl, mk(dl)))
+                if dl is not None and not sound(parts[-1][1], dl):
+                    return
             order = [int(x) for x in g.permutation(len(parts))]
             parts = [parts[i] for i in order]
             mats = [p[1] for p in parts]
